@@ -1,19 +1,78 @@
 import GeffModel.WRJson
 import GeffModel.StoreTree
+import GeffModel.ReadOpts
 open Lean Geff Geff.Proto Geff.Store Geff.WR Geff.WRJson
 
 /-- requests:
   {"op":"write","g":geff,"md":meta,"node_unsquish":…,"edge_unsquish":…,"store":[…]?}  → outcome (+ store)
   {"op":"read","store":[…]}                                                        → outcome (+ geff, md)
   {"op":"roundtrip","g":…,"md":…}                                                  → outcome of write then read
+  {"op":"read_opts","store":[…],"ds":{"decl":{…},"other":{…}},"reads":[{"entry":…,"sv":b,"np":…,"ep":…,"dv":…}, …]}
+                                                                                   → {"answers":[outcome (+ geff, md), …]}
 `"validate": true` runs the structural validator (C04's model through `Geff.Bridge.validate`) where
-`write_arrays` / `read_to_memory` call `validate_structure`; default false. -/
+`write_arrays` / `read_to_memory` call `validate_structure`; default false.
+`read_opts`: one store, many read configurations (`GeffModel/ReadOpts.lean`): `entry` is `read_to_memory`,
+`reader_build` (GeffReader + read_*_props + build, then `validate_data` by hand when `dv` is given) or
+`read:<backend>` (Backend.read with `construct` = identity); `sv` = structure_validation; `np` / `ep` = null or
+the list of names; `dv` = null or the list of enabled `ValidationConfig` flags. -/
 def noValidate : St → Outcome Unit := fun _ => pure ()
 
 def validatorOf (j : Json) : St → Outcome Unit :=
   match j.getObjVal? "validate" with
   | .ok (.bool true) => Geff.Bridge.validate
   | _ => noValidate
+
+def namesOfJson (j : Json) : Except String (Option (List String)) :=
+  if j.isNull then pure none else do pure (some (← (← j.getArr?).toList.mapM (·.getStr?)))
+
+def configOfJson (j : Json) : Except String (Option Geff.Validate.Config) :=
+  if j.isNull then pure none else do
+    let fl ← (← j.getArr?).toList.mapM (·.getStr?)
+    if fl.any (fun f => !(["graph", "sphere", "ellipsoid", "lineage", "tracklet"].contains f)) then throw "unknown flag"
+    pure (some { graph := fl.contains "graph", sphere := fl.contains "sphere", ellipsoid := fl.contains "ellipsoid",
+                 lineage := fl.contains "lineage", tracklet := fl.contains "tracklet" })
+
+def validateOutcomeOfJson (j : Json) : Geff.Validate.Outcome :=
+  match j with
+  | .str "ok" => .ok
+  | .str "ValueError" => .valueError ""
+  | .str n => .other n
+  | _ => .ok
+
+def dataSideOfJson (j : Json) : Except String DataSide := do
+  if j.isNull then return ⟨⟨false, false, none⟩, fun _ => .ok⟩
+  let d := optField j "decl"
+  let track ← match optField d "track" with
+    | .null => pure none
+    | t => do
+      let a ← t.getArr?
+      if a.size = 2 then pure (some ((← a[0]!.getBool?), (← a[1]!.getBool?))) else throw "[tracklet, lineage] expected"
+  let b := fun (k : String) => match optField d k with | .bool true => true | _ => false
+  let o := optField j "other"
+  pure ⟨⟨b "sphere", b "ellipsoid", track⟩, fun call => match call with
+    | .sphere => validateOutcomeOfJson (optField o "sphere")
+    | .ellipsoid => validateOutcomeOfJson (optField o "ellipsoid")
+    | .tracklets => validateOutcomeOfJson (optField o "tracklet")
+    | .lineages => validateOutcomeOfJson (optField o "lineage")
+    | _ => .ok⟩
+
+def readOne (s : St) (ds : DataSide) (j : Json) : Except String Json := do
+  let entry ← (← j.getObjVal? "entry").getStr?
+  let sv ← (← j.getObjVal? "sv").getBool?
+  let o : ReadOpts := ⟨sv, ← namesOfJson (optField j "np"), ← namesOfJson (optField j "ep"), ← configOfJson (optField j "dv")⟩
+  let r : Outcome ReadResult ←
+    if entry = "read_to_memory" then pure (readToMemoryOpts vlenCodec Geff.Bridge.validate (validateDataOn ds) o s)
+    else if entry = "reader_build" then pure (do
+      let r ← readerBuild vlenCodec Geff.Bridge.validate sv o.nodeProps o.edgeProps s
+      match o.dataValidation with
+      | some cfg => validateDataOn ds cfg r
+      | none => pure ()
+      pure r)
+    else if entry.startsWith "read:" then pure (do
+      let gr ← geffRead (γ := ReadResult) pure vlenCodec Geff.Bridge.validate (validateDataOn ds) o s
+      pure gr.1)
+    else throw s!"unknown entry {entry}"
+  pure (outcomeJson r (fun r => [("geff", readResultToJson r), ("md", geffAttrToJson r.md)]))
 
 def handle (j : Json) : Except String Json := do
   let op ← (← j.getObjVal? "op").getStr?
@@ -37,6 +96,12 @@ def handle (j : Json) : Except String Json := do
       let s ← writeArrays vlenCodec noValidate [] g md
       readToMemory vlenCodec noValidate s
     pure (outcomeJson r (fun r => [("geff", readResultToJson r)]))
+  | "read_opts" =>
+    let s ← storeOfJson (← j.getObjVal? "store")
+    let ds ← dataSideOfJson (optField j "ds")
+    let reads ← (← j.getObjVal? "reads").getArr?
+    let answers ← reads.toList.mapM (readOne s ds)
+    pure (Json.mkObj [("answers", Json.arr answers.toArray)])
   | _ => throw s!"unknown op {op}"
 
 def main : IO Unit := Proto.run handle
